@@ -30,6 +30,7 @@ def check(ctx):
     repo = ctx.repo
     ctx.rule("R08.1", "every .to(unit) converts between equal dimensions; every bare scale the solver uses equals its "
                       "physical definition as an exact term in the unit sizes kL, kB, kI", 8)
+    ctx.rule("R08.5", "time-dependent drives are re-evaluated exactly like in the constructor (same points, same A_scale, same components)", 2)
     ctx.rule("R08.2", "documented constants: Bc2 = Phi0/(2 pi xi^2), A0 = xi Bc2, K0 = 4 xi Bc2/(mu0 Lambda), Lambda = lambda^2/d", 4)
     ctx.rule("R08.3", "sum of link exponents around a triangle in a uniform field == 2 pi B Area / Phi0", 1)
     ctx.rule("R08.4", "unit strings are never compared with literals in library code (no unit system is special-cased)", 1)
@@ -100,6 +101,8 @@ def check(ctx):
                detail=det, where=m.fq, construct=f"Device.{meth}", loc=loc(m, m.node), message=det,
                consequence="pint raises DimensionalityError / wrong physical scale")
 
+    # -- the time-dependent evaluation sites use the same scale and the same points as the constructor ------
+    drive_siblings(ctx)
     # -- conversions in post-processing ------------------------------------------------------
     post_processing(ctx)
 
@@ -219,3 +222,47 @@ def post_processing(ctx):
             ctx.ob("R08.1", f"{qual}: {t[3]}", t[2], detail={"from": t[0], "to": t[1]}, where=f.fq, construct=t[3],
                    message=f"conversion between [{t[0]}] and [{t[1]}]", consequence="DimensionalityError")
     ctx.note("post_processing_to_calls", {"syntactic": syntactic, "evaluated_in_model": evaluated})
+
+
+def drive_siblings(ctx):
+    from ..dataflow import expanded_text
+    repo = ctx.repo
+    fi = repo.func(SOLVER, "TDGLSolver.__init__")
+    fu = repo.func(SOLVER, "TDGLSolver.update_applied_vector_potential")
+    fe = repo.func(SOLVER, "TDGLSolver.update_epsilon")
+
+    def call_of(fn, callee):
+        cs = [n for n in own_nodes(fn) if isinstance(n, ast.Call) and norm(n.func) == callee]
+        return cs
+
+    def pos_args(c):
+        return [norm(a) for a in c.args]
+    c0 = call_of(fi.node, "self.applied_vector_potential")
+    c1 = call_of(fu.node, "self.applied_vector_potential")
+    ok = len(c0) == 1 and len(c1) == 1 and pos_args(c0[0]) == pos_args(c1[0]) == ["self.edge_centers[:, 0]", "self.edge_centers[:, 1]", "self.z0"] \
+        and [k.arg for k in c1[0].keywords] == ["t"] and norm(c1[0].keywords[0].value) == "time"
+    rets = [n for n in own_nodes(fu.node) if isinstance(n, ast.Return)]
+    rname = norm(rets[0].value) if len(rets) == 1 else "?"
+    from ..src import rename_id
+    steps = [rename_id(norm(n.value), rname, "X") for n in own_nodes(fu.node) if isinstance(n, ast.Assign) and norm(n.targets[0]) == rname]
+    scaled1 = " ; ".join(steps)
+    init_scaled = [norm(n.value) for n in own_nodes(fi.node) if isinstance(n, ast.Assign) and norm(n.targets[0]) == "current_A_applied"
+                   and "A_scale" in norm(n.value)]
+    ok1 = len(steps) >= 2 and steps[0].startswith("self.applied_vector_potential(") and \
+        sum(1 for t in steps if t in ("self.A_scale * X[:, :2]", "X[:, :2] * self.A_scale")) == 1 and \
+        all(t.startswith("self.applied_vector_potential(") or t in ("self.A_scale * X[:, :2]", "X[:, :2] * self.A_scale", "cupy.asarray(X)") for t in steps)
+    ok0 = init_scaled == ["self.A_scale * np.asarray(current_A_applied)[:, :2]"]
+    ctx.ob("R08.5", "update_applied_vector_potential evaluates A at (edge centres, z0, t=time) and scales the x,y components by A_scale, like __init__",
+           ok and ok0 and ok1, detail={"init_call": [norm(c) for c in c0], "update_call": [norm(c) for c in c1], "init_scaled": init_scaled,
+                                        "update_returns": scaled1[:160]},
+           where=fu.fq, construct="time-dependent vector potential evaluation", loc=loc(fu, fu.node),
+           message="the time-dependent vector potential is evaluated or scaled differently from the initial one",
+           consequence="a time-dependent applied field jumps by a unit-dependent factor at the first step (A(t) and A(0) use different scales or points)")
+    e0 = [n for n in own_nodes(fi.node) if isinstance(n, ast.Call) and norm(n.func) == "disorder_epsilon"]
+    e1 = [n for n in own_nodes(fe.node) if isinstance(n, ast.Call) and norm(n.func) == "self.disorder_epsilon"]
+    a0 = sorted(norm(c.args[0]) for c in e0 if c.args)
+    a1 = sorted(norm(c.args[0]) for c in e1 if c.args)
+    ok = a0 == a1 == ["r", "self.sites"] and all(any(k.arg == "t" and norm(k.value) == "time" for k in c.keywords) for c in e1)
+    ctx.ob("R08.5", "update_epsilon evaluates epsilon at the same points (self.sites / each r in self.sites) with t=time", ok,
+           detail={"init": a0, "update": a1}, where=fe.fq, construct="time-dependent epsilon evaluation", loc=loc(fe, fe.node),
+           message=f"epsilon evaluation sites differ: init {a0}, update {a1}", consequence="a time-dependent disorder map is sampled at other positions after t=0")
